@@ -196,6 +196,14 @@ class TypeInfer:
             for _ in e.generators:
                 self.scopes.pop()
             return ('set' if isinstance(e, ast.SetComp) else 'list', t)
+        if isinstance(e, ast.Call) and isinstance(e.func, ast.Name) and e.func.id == 'dict' and len(e.args) == 1 and not e.keywords \
+                and isinstance(e.args[0], (ast.GeneratorExp, ast.ListComp)) and isinstance(e.args[0].elt, ast.Tuple) and len(e.args[0].elt.elts) == 2:
+            g_ = e.args[0]
+            return self.infer(ast.DictComp(key=g_.elt.elts[0], value=g_.elt.elts[1], generators=g_.generators))
+        if isinstance(e, ast.Call) and isinstance(e.func, ast.Name) and e.func.id in ('list', 'set', 'tuple') and len(e.args) == 1 and not e.keywords \
+                and isinstance(e.args[0], (ast.GeneratorExp, ast.ListComp)):
+            inner_ = self.infer(ast.ListComp(elt=e.args[0].elt, generators=e.args[0].generators))
+            return (e.func.id, inner_[1]) if isinstance(inner_, tuple) and len(inner_) == 2 and inner_[0] == 'list' else UNK
         if isinstance(e, ast.DictComp):
             self._bind_generators(e.generators)
             k, v = self.infer(e.key), self.infer(e.value)
@@ -258,6 +266,10 @@ class TypeInfer:
                 return ('leaf', 'str')
             if f.id == 'int':
                 return ('leaf', 'int')
+            if f.id == 'dict' and len(e.args) == 1 and not e.keywords and isinstance(e.args[0], (ast.GeneratorExp, ast.ListComp)) \
+                    and isinstance(e.args[0].elt, ast.Tuple) and len(e.args[0].elt.elts) == 2:
+                g_ = e.args[0]          # dict(<(key, value) pairs>) is the dict comprehension {key: value for ...}
+                return self.infer(ast.DictComp(key=g_.elt.elts[0], value=g_.elt.elts[1], generators=g_.generators))
             if f.id == 'dict' and len(e.args) == 1:
                 return self.infer(e.args[0])
             if f.id in ('tuple', 'list', 'sorted', 'set'):
@@ -366,6 +378,14 @@ class JsonTyper:
             if kt['types'] != {'string'}:
                 out['unknown'] = f'dict key `{ast.unparse(e.key)}` is not a string'
             return out
+        if isinstance(e, ast.Call) and isinstance(e.func, ast.Name) and e.func.id == 'dict' and len(e.args) == 1 and not e.keywords \
+                and isinstance(e.args[0], (ast.GeneratorExp, ast.ListComp)) and isinstance(e.args[0].elt, ast.Tuple) and len(e.args[0].elt.elts) == 2:
+            # dict(<(key, value) pairs>) is the dict comprehension {key: value for ...}
+            g = e.args[0]
+            return self.of(ast.DictComp(key=g.elt.elts[0], value=g.elt.elts[1], generators=g.generators))
+        if isinstance(e, ast.Call) and isinstance(e.func, ast.Name) and e.func.id in ('list', 'tuple', 'sorted') and len(e.args) == 1 and not e.keywords \
+                and isinstance(e.args[0], (ast.GeneratorExp, ast.ListComp)):
+            return self.of(e.args[0])
         if isinstance(e, (ast.ListComp, ast.GeneratorExp)):
             self.ti._bind_generators(e.generators)
             it = self.of(e.elt)
